@@ -6,6 +6,7 @@
       set of state carriers modelled here;  (2) those carriers cannot leak unrelated history.
 -/
 import AITB.Model.Hidden
+import AITB.Model.SolverObj
 import AITB.Gen.Statics
 
 namespace AITB.Hidden
@@ -95,5 +96,42 @@ theorem pool_unobservable (ops : List GOp) : ∀ (w w' : PoolWorld), w.graph = w
 example : (runG ⟨[⟨[1, 2], [7]⟩], []⟩ [.addFactor [0, 1], .setData 0 [5], .eraseVar 1, .addFactor [2]]).graph
         = (runG ⟨[], []⟩ [.addFactor [0, 1], .setData 0 [5], .eraseVar 1, .addFactor [2]]).graph := by decide
 example : (runSeeder (fun s k => s * 100 + k) ⟨9, 4⟩ [.construct, .setRoot 3, .construct, .construct]).1 = [904, 300, 301] := by decide
+
+end AITB.Hidden
+
+/-! ### solver objects: a call's output does not depend on what earlier calls left behind -/
+namespace AITB.Hidden
+
+/-- the two facts that make a reused object indistinguishable from a fresh one -/
+structure Reusable {Cfg Scr In Out} (S : SolverSem Cfg Scr In Out) : Prop where
+  cfg_kept : ∀ c sc x, (S.call c sc x).1 = c
+  scratch_free : ∀ c sc sc' x, (S.call c sc x).2.2 = (S.call c sc' x).2.2
+
+/-- **call_output_independent_of_history** — for a `Reusable` solver, the outputs of ANY sequence of
+    calls on one object equal, call by call, the output of a fresh object on that input:
+    unrelated earlier problems (of any size) and the scratch they leave behind are unobservable. -/
+theorem call_output_independent_of_history {Cfg Scr In Out} (S : SolverSem Cfg Scr In Out) (h : Reusable S)
+    (fresh : Scr) : ∀ (xs : List In) (c : Cfg) (sc : Scr),
+      S.runSeq c sc xs = xs.map (fun x => (S.call c fresh x).2.2) := by
+  intro xs
+  induction xs with
+  | nil => intro c sc; rfl
+  | cons x xs ih =>
+    intro c sc
+    simp only [SolverSem.runSeq, List.map]
+    have hc : (S.call c sc x).1 = c := h.cfg_kept c sc x
+    have hs : (S.call c sc x).2.2 = (S.call c fresh x).2.2 := h.scratch_free c sc fresh x
+    show (S.call c sc x).2.2 :: S.runSeq (S.call c sc x).1 (S.call c sc x).2.1 xs = _
+    rw [hc, ih c _, hs]
+
+/-- the modelled `ValueIteration` object is reusable: every call starts from the configured
+    `vParameter_` (copied, not consumed) or from zeros, never from the previous `v1_` -/
+theorem viObject_reusable : Reusable viObject :=
+  ⟨fun _ _ _ => rfl, fun _ _ _ _ => rfl⟩
+
+theorem vi_reuse_eq_fresh (cfg : VICfg) (sc : AITB.MDP.VF) (ms : List AITB.MDP.MDP) :
+    viObject.runSeq cfg sc ms
+      = ms.map (fun m => AITB.MDP.valueIteration m cfg.rep cfg.horizon cfg.tol cfg.vParameter) :=
+  call_output_independent_of_history viObject viObject_reusable (AITB.MDP.makeVF 0) ms cfg sc
 
 end AITB.Hidden
